@@ -629,6 +629,8 @@ def load_corpus():
 
 
 def run(tier, seed):
+    import gen_constants
+    gen_constants.generate(["C20"])          # literals of the modelled functions -> coq/Gen/C20.v (anchored in Props/C20.v)
     chk = C.Check("C20", tier, seed)
     chk.prove()
     thorough = tier == "thorough"
